@@ -38,7 +38,7 @@ def run(ctx, replay_ops=None):
     lcore.run(ctx, "C21", "c21", "AlgoVerif.Props.C21", monitor,
               rule=("cases as in C18; profile c21 = payments whose amount sits at balance − fee − minBalance·(1+assets) and ±1, at minBalance and minBalance−1 to empty receivers (incl. the zero address "
                     "and the exempt state-proof sender / fee sink / rewards pool), close-outs, asset creations and opt-ins that raise the requirement of an account sitting exactly at it, "
-                    "close-outs that lower it; evaluations = groups tried; distinct = distinct non-empty group op lines"),
+                    "close-outs that lower it; a directed rewards-band stream (50% of c21 cases, 12% elsewhere): a genesis whose rewards level rises by thousands per round (large non-participating pool, small stake) with a funded NON-PARTICIPATING account (frozen rewards base; sometimes a second one made non-participating by keyreg in the block) that creates 10–13 assets (min balance ≥ 1 reward unit) and then, in every block, spends so that its post-balance is min − k for k ∈ {p+1, p, 1, 0/−1} where p = ⌊balance/RewardUnit⌋·(level − base) is what a status-blind rewards formula would add; the same band for a participating account with a stale base; evaluations = groups tried; distinct = distinct non-empty group op lines"),
               replay_ops=replay_ops,
               extra_assumptions=["application and box counters of accounts are 0 in this model, so MinBalance reduces to MinBalance·(1+TotalAssets) (minbalance_formula); the full eight-term formula is the regenerated Gen.Fees.MinBalance"])
 
